@@ -43,6 +43,12 @@ def directed(tier):
                             sends=[dict(side='A', length=120, at=-1), dict(side='B', length=1, at=-1), dict(side='A', length=2, at=20),
                                    dict(side='B', length=300, at=30)]))
             idx += 1
+    # many bundles waiting in the receive queue at once (ids of one and two digits; the harness drains in listed order)
+    for count, policy in ((13, 'fair'), (25, 'rr'), (104, 'eager')):
+        out.append(dict(id='dir-%d' % idx, seed=idx, policy=policy, capacity=None, cfg_a=dict(segment_size_tx_initial=40), cfg_b={},
+                        sends=[dict(side='A', length=5 + pos, at=-1 if pos < 3 else pos) for pos in range(count)] +
+                        [dict(side='B', length=30 + pos, at=2 * pos) for pos in range(11)]))
+        idx += 1
     # one octet at a time
     for seg in (1, 7, 100):
         out.append(dict(id='dir-%d' % idx, seed=idx, policy='octet', capacity=None, cfg_a=dict(segment_size_tx_initial=seg),
